@@ -32,6 +32,31 @@ def _pat_json(pat):
     return [[int(k) for k in kt] for kt in pat]
 
 
+CONFIG_FIELDS = ('p', 'q', 'r', 'd', 'start_index', 'cse', 'graded', 'wrapper', 'codegen_symbolcls', 'simp_func', 'pretty_blade', 'basis')
+
+
+def config_snapshot(alg):
+    """The configuration of an Algebra: constants of the model (Kingdon.tla: Wrapper, ...).  Taken once after creation."""
+    snap = {f: getattr(alg, f, None) for f in CONFIG_FIELDS}
+    snap['signature'] = tuple(int(x) for x in alg.signature)
+    alg.__dict__['_verif_config'] = snap
+    return snap
+
+
+def config_changed(alg):
+    """'' if every configuration field is what it was after creation, else the name of the first changed field."""
+    snap = alg.__dict__.get('_verif_config')
+    if snap is None:
+        return ''
+    for f in CONFIG_FIELDS:
+        a, b = getattr(alg, f, None), snap[f]
+        if a is not b and not (isinstance(a, (int, bool, str, list, tuple)) and a == b):
+            return f
+    if tuple(int(x) for x in alg.signature) != snap['signature']:
+        return 'signature'
+    return ''
+
+
 class Recorder:
     def __init__(self, yield_hook=None):
         self.events = []
@@ -189,6 +214,7 @@ def instrument(alg, rec):
     for name, od in list(alg.registry.items()):
         role = name if isinstance(name, str) else getattr(od, 'name', str(name))
         od.operator_dict = LoggedDict(rec, role, od.operator_dict)
+    config_snapshot(alg)
     return alg
 
 
